@@ -231,7 +231,7 @@ def fsOps (toks : List String) (out : String) : List Fs.FsOp :=
 def step (d : DState) (line : String) : DState × String :=
   let toks := (line.trimAscii.toString.splitOn " ").filter (fun t => !t.startsWith "@" && t ≠ "")
   match toks with
-  | ["trace"] =>
+  | "trace" :: _ =>
     if !d.isOpen then (d, "err NoStorage") else ({ d with pendingEv := [] }, Fs.showTrace d.pendingEv)
   | ["dirty"] =>
     if !d.isOpen then (d, "err NoStorage") else (d, Fs.showDirty d.fs)
@@ -240,7 +240,7 @@ def step (d : DState) (line : String) : DState × String :=
   | "cfg" :: rest =>
     let (d', o) := stepCore d line
     let r := Fs.init (rest.any (· == "dup=1")) (cfgNat rest "dirty" 33554432) (cfgNat rest "key" 4)
-      (cfgNat rest "fsyncfix" 1 != 0)
+      (cfgNat rest "fsyncfix" 1 != 0) (cfgNat rest "restorefix" 1 != 0)
     ({ d' with fs := r.1, pendingEv := r.2 }, o)
   | _ =>
     let (d', o) := stepCore d line
